@@ -232,3 +232,19 @@ check(
     "DESIGN.md section 3 C05",
     "gridlab",
 )
+
+ENGINES[-1 if ENGINES[-1]["name"] == "gridlab" else 2]["serves_properties"].append("C06")
+check(
+    "C06",
+    "exploration",
+    "For generated grids with toroidal field the harness integrates Bt/(R|Bp|) along the reference flux surface between "
+    "consecutive grid points of every surface and compares with the increments of zShift along each chain of y-connected "
+    "regions (origin, continuity at every join except the single ShiftAngle jump), ShiftAngle against the closed "
+    "integral (2 pi q for the circular family, one and two q coefficients) and its NaN pattern, dphidy = "
+    "hy*Btxy/(Bpxy*Rxy), ShiftTorsion = centred x-difference of dphidy at centre, ylow and xlow.",
+    "Trusted base: reference interpolant + DOP853; tolerance = 5 x trapezoid/interpolation remainder estimated on the "
+    "reference path at spacing L/Nfine.",
+    "generated-grid PBT with reference field-line-integral oracle",
+    "DESIGN.md section 3 C06",
+    "gridlab",
+)
